@@ -8,12 +8,12 @@ from vlib.runner import Outcome, Sub
 
 ID = "C04"
 LEVEL = "exploration"
-RULE = ("Hypothesis-generated problems emphasising strong coupling (alpha up to 2, conditioned to D<=5), T in {0, small, large}, "
+RULE = ("Hypothesis-generated problems emphasising strong coupling (alpha up to 2, conditioned to D<=3.5), T in {0, small, large}, "
         "rank-1 and rank-deficient initial states, dissipative and time-dependent systems, all memory settings, unique both, "
         "d=2..4; methods TEMPO, PT-TEMPO+compute_dynamics, mean-field TEMPO (1..2 systems), PT-TEBD (2..4 sites with PT-TEMPO / "
         "ancilla tensors on sites), Gibbs. Invariants at every step: |tr rho-1|<=tol, ||rho-rho^+||<=tol, lambda_min>=-tol only "
         "when no memory cut-off is in force; PT-TEBD norm=1 and traces of recorded site states = 1; Gibbs state normalised, "
-        "Hermitian, positive. A separate frontier sub-check explores D in (5,100] (known finding F-04). Non-trivial: alpha>=0.3 "
+        "Hermitian, positive. A separate frontier sub-check explores D in (3.5,100] (known finding F-04 for D > 10). Non-trivial: alpha>=0.3 "
         "(after conditioning: D>=0.5) or Lindblad terms present; distinct = distinct canonical JSON.")
 TECHNIQUE = "Hypothesis property-based testing of invariants (trace, Hermiticity, positivity, norm) over generated inputs at every step"
 LEVEL_TEXT = ("Validity predicate on every reported state of five methods over generated strong-coupling, rank-deficient and "
@@ -21,7 +21,7 @@ LEVEL_TEXT = ("Validity predicate on every reported state of five methods over g
               "recorded as known finding F-04.")
 LEVEL_NOTE = ("tol = c_T (N+1) eps + 1e-7 (c_T=1000 where PT-TEMPO is involved, 100 otherwise); positivity only with full memory; "
               "frontier failures are matched against known_findings.txt by their D-decade signature.")
-ASSUMPTIONS = ["conditioning bound D<=5 for the main sub-checks (DESIGN section 4)",
+ASSUMPTIONS = ["conditioning bound D<=3.5 for the main sub-checks (DESIGN sections 4 and 10.7)",
                "positivity is only claimed when no memory cut-off is applied"]
 
 
@@ -74,7 +74,7 @@ def run_tempo(case):
     cut = tempogen.cutoff_active(p)
     out.nontrivial = D >= 0.5 or bool(case["sys"]["lind"])
     out.label(f"d={d}", f"rank={rank}" if rank < d else "full-rank", "cutoff-active" if cut else "full-memory",
-              "D<0.5" if D < 0.5 else ("D<2" if D < 2 else "D<=5"), case["sys"]["kind"],
+              "D<0.5" if D < 0.5 else ("D<2" if D < 2 else "D<=3.5"), case["sys"]["kind"],
               "lindblad" if case["sys"]["lind"] else "no-lindblad", "T=0" if sd["T"] == 0 else "T>0")
     dyn = oqupy.Tempo(system, bath, par, rho0, t0, unique=case["unique"]).compute(t_end, progress_type="silent")
     physical(out, "tempo", dyn.states, tempogen.trunc_tol(p, 100.0), not cut)
@@ -184,11 +184,11 @@ def s_frontier(draw, tier):
                                                     temps=[0.0, 1.0, 20.0], zetas=[1.0, 2.0])),
             "sys": draw(sysgen.sys_spec(d, allow_td=False, allow_lind=False)), "rho0": draw(gens.dm_spec(d)),
             "par": draw(tempogen.params_spec(d, tier, n_min=2, n_max=6, eps=[1e-8])),
-            "Dtarget": draw(st.sampled_from([8.0, 15.0, 30.0, 60.0, 100.0]))}
+            "Dtarget": draw(st.sampled_from([4.5, 8.0, 15.0, 30.0, 60.0, 100.0]))}
 
 
 def run_frontier(case):
-    """D in (5, 100]: loss of trace / Hermiticity / boundedness is finding F-04; failures are classified by the
+    """D in (3.5, 100]: loss of trace / Hermiticity / boundedness is finding F-04; failures are classified by the
     decade of D so that a failure at D<=5 or of another kind is still reported as a violation."""
     import oqupy
     out = Outcome()
@@ -208,7 +208,7 @@ def run_frontier(case):
     st_ = np.array(dyn.states)
     Dt = case["Dtarget"]
     out.nontrivial = True
-    dec = "D5-10" if Dt <= 10 else ("D10-30" if Dt <= 30 else "D30-100")
+    dec = "D3.5-5" if Dt <= 5 else ("D5-10" if Dt <= 10 else ("D10-30" if Dt <= 30 else "D30-100"))
     out.label(dec)
     scale = max(1.0, float(np.abs(st_).max())) if np.all(np.isfinite(st_)) else float("inf")
     tol = tempogen.trunc_tol(p, 1000.0)
